@@ -1,0 +1,17 @@
+//go:build verif
+// +build verif
+
+package bmtree
+
+// VerifTables returns a copy of the unexported idxToPath lookup tables, for
+// verification harnesses that check the tables are never modified after
+// initialisation.
+//
+// It is compiled only with "-tags verif".
+func VerifTables() [][]uint64 {
+	rst := make([][]uint64, len(idxToPath))
+	for i, t := range idxToPath {
+		rst[i] = append([]uint64(nil), t...)
+	}
+	return rst
+}
